@@ -121,6 +121,31 @@ def run(ctx):
                "each page-table page must be emitted (length 0) exactly once, right after that table's data pages and "
                "before moving on to the next table: otherwise the table page is never returned (or returned twice)")
 
+    # ---------------------------------------------------------------- R1f discard() shares no mutable state with the writer
+    # discard() is public and runs on arbitrary logging threads concurrently with the writer thread: apart from handing pages to the
+    # page allocator it may only use locals and thread-locals, never a data member of the appender
+    for fn in fb.find(pred=lambda f: f.record == APP and f.name == "discard" and f.has_cfg()):
+        touched = set()
+        for _, ev in fn.all_events():
+            for key in ("this", "lhs"):
+                d = strip_cast(ev.get(key)) if ev.get(key) is not None else None
+                if ev["e"] == "asg" and key == "this":
+                    continue
+                if isinstance(d, dict) and d.get("k") == "f" and isinstance(strip_cast(d.get("b")), dict) and strip_cast(d["b"]).get("k") == "this" \
+                        and not d.get("arrow_call"):
+                    # calls *through* a pointer member (page allocator) do not touch the appender itself
+                    if ev["e"] == "call" and (d.get("t") or "").rstrip().endswith("*"):
+                        continue
+                    touched.add(d.get("n"))
+            for a_ in ev.get("args", []) or []:
+                for sd in walk(a_):
+                    if sd.get("k") == "u" and sd.get("op") == "&" and isinstance(strip_cast(sd.get("x")), dict) and \
+                            strip_cast(sd["x"]).get("k") == "f" and strip_cast(strip_cast(sd["x"]).get("b", {})).get("k") == "this":
+                        touched.add(strip_cast(sd["x"]).get("n"))
+        ctx.ob("C20.R1f", L.short(fn), not touched, fn.loc,
+               "discard() uses data member(s) %s of the appender: it runs on any logging thread while the writer thread works with the "
+               "same object, so a scratch list kept in a member is filled by both and its pages are returned twice" % sorted(touched))
+
     # ---------------------------------------------------------------- R2g/h the byte count has one writer
     # the entry's size is what lays the pages out again in append_to_iovec: it is advanced in one place (sync, relative to the
     # sync point) and nowhere else, and overflow() brings it up to date before it switches pages
